@@ -1,5 +1,5 @@
 From Coq Require Import Extraction ExtrOcamlBasic.
-From NPS Require Import ListAux PySlice NumpySem Shape Scatter BuildIdx View Index RowsSpec XorBroadcast Reduce RLE Assign AssignSpec Hash MapSpec HashRun BitArr RLEOps Scan RaOps RLE2d DataClass IdxWidth Geometry HeapRun Heap DataClassProof Struct2 FastIndices.
+From NPS Require Import ListAux PySlice NumpySem Shape Scatter BuildIdx View Index RowsSpec XorBroadcast Reduce RLE Assign AssignSpec Hash MapSpec HashRun BitArr RLEOps Scan RaOps RLEWindowsVec RLE2d DataClass IdxWidth Geometry HeapRun Heap DataClassProof Struct2 FastIndices.
 Definition getitem_model_Z (r : list (list Z)) (idx : index) : res (result Z) :=
   rbind (getitem (ra_of_rows r) idx) observe.
 Definition getitem_spec_Z (r : list (list Z)) (idx : index) : res (result Z) := spec_getitem r idx.
@@ -63,7 +63,8 @@ Definition op_where_s (x : list (list Z)) (m : list (list bool)) (y : Z) := (rma
 Definition op_like (x : list (list Z)) (c : Z) := (fr_rows (ra_like (fr x) c), map (fun r : list Z => repeat c (length r)) x).
 Definition op_concat1 (xs : list (list (list Z))) := fr_rows (ra_concat1 xs).
 Definition op_fastidx (starts lens : list Z) := let rows := combine starts lens in (fast_indices rows, spec_indices rows 1).
-Definition rle_windows_Z (a ss es : list Z) : list (list Z) := map (decode Z) (rl_windows (rle_encode a) ss es).
+(* the vector code of _start_to_end as written (Model/RLEWindowsVec.v; = rl_windows row by row: start_to_end_vec_is_rows) *)
+Definition rle_windows_Z (a ss es : list Z) : list (list Z) := match start_to_end_vec (rle_encode a) ss es with Ok rows => map (decode Z) rows | Refused => [] end.
 Definition rle_rlmask_Z (a : list Z) (m : list bool) : list Z := rl_getitem_rlmask (rle_encode a) (from_array bool false xorb m).
 Definition op_argmax (x : list (list Z)) := (arg_model x (map zmax_list x), argmax_rows x).
 Definition op_argmin (x : list (list Z)) := (arg_model x (map zminl x), argmin_rows x).
